@@ -87,9 +87,54 @@ def no_32bit_wrap(ctx, crate, clause="64-bit-ring-arithmetic"):
                    "32-bit arithmetic can wrap: %s" % bad[:2], at=b.span, kind="N")
 
 
+def ring_index_form(ctx, crate, depths, clause="ring-index"):
+    """D: the ring number to_ring assigns to cell (b, i, j) is the model's: the centre of the cell
+    has y = 1 - b/4 + (i + j + 1 - n)/n in the projection plane and ring k (0-based from the north
+    pole) is the parallel y = 2 - (k + 1)/n, hence k = n (2 + b div 4) - (i + j + 2).  Checked as a
+    polynomial identity in (i, j) for every base cell and depth."""
+    from rules.c11_forms import ipoly
+    from poly import Poly
+    from sym import C
+    fn = "nested::Layer::to_ring"
+    b = ctx.anchor(crate, fn, clause)
+    if b is None: return
+    fields = [f["name"] for f in crate.adts["nested::Layer"]["variants"][0]["fields"]]
+    bad = []; n_ok = 0
+    for d in depths:
+        n = 1 << d
+        vals = {"depth": C('u8', d), "nside": C('u32', n), "n_hash": C('u64', 12 * n * n), "twice_depth": C('u8', 2 * d)}
+        selfv = ('agg', 'adt:nested::Layer', 0, tuple(vals.get(f, ('sym', ('self', f))) for f in fields))
+        e0 = Engine(crate, opaque={"nested::Layer::decode_hash"}); e0.run_method(fn, selfv)
+        dec = [ev for ev in e0.events.values() if ev.callee == "nested::Layer::decode_hash"]
+        if len(dec) != 1:
+            bad.append((d, "decode_hash calls: %d" % len(dec))); continue
+        d0h_t, i_t, j_t = ('fld', dec[0].ret, 0), ('fld', dec[0].ret, 1), ('fld', dec[0].ret, 2)
+        for base in range(12):
+            e = Engine(crate, opaque={"nested::Layer::decode_hash"}); e.subst = {d0h_t: C('u8', base)}
+            e.run_method(fn, selfv)
+            # the ring index is the term compared with nside to select the region
+            cand = [t[3] for t, loc in e.branches if t[0] == 'op' and t[1] in ('lt', 'ge') and t[4] == C('u64', n)] + \
+                   [t[4] for t, loc in e.branches if t[0] == 'op' and t[1] in ('gt', 'le') and t[3] == C('u64', n)]
+            if not cand:
+                bad.append((d, base, "region test not found")); continue
+            p = ipoly(cand[0], {i_t: "i", j_t: "j"})
+            want = Poly.const(n * (2 + base // 4) - 2) - Poly.var("i") - Poly.var("j")
+            if p == want: n_ok += 1
+            else: bad.append((d, base, repr(p)))
+    ctx.functions.add(fn)
+    ctx.report(clause, fn + ":ring=n(2+b/4)-(i+j+2)", not bad, "for depths %s and the 12 base cells the ring index is the model's linear form (%d identities)" % (depths if len(depths) < 8 else "0..=29", n_ok) if not bad else "differs: %s" % bad[:3], at=b.span,
+               sample={"identities": n_ok})
+
+
 def run(ctx):
     crate = ctx.crate("rel")
     no_32bit_wrap(ctx, crate)
+    ring_index_form(ctx, crate, list(range(30)) if ctx.tier == "thorough" else [0, 1, 2, 13, 29])
+    try:
+        from rules import c11_forms
+        c11_forms.run(ctx, crate)
+    except ImportError:
+        pass
     n = e7.check_fn(ctx, crate, "nested::Layer::from_ring", "exact-integer-sqrt")
     ctx.floor("sqrt-chains-in-from_ring", n, 1)
     boundaries(ctx, crate)
